@@ -362,6 +362,16 @@ def __infer_func_call(
 
     if card.is_single():
         return UNIQUE
+    elif any(
+        arg.param_typemod is not qltypes.TypeModifier.SetOfType
+        and cardinality.infer_cardinality(
+            arg.expr, scope_tree=scope_tree, ctx=ctx).is_multi()
+        for arg in ir.args.values()
+    ):
+        # The call is evaluated once per element of every multi
+        # non-SET OF argument (e.g. a multi `message` of an assert_*
+        # function), so equal results may repeat.
+        return DUPLICATE
     elif str(ir.func_shortname) == 'std::assert_distinct':
         return UNIQUE
     elif str(ir.func_shortname) == 'std::assert_exists':
